@@ -373,3 +373,77 @@ func (rn *runner) streamErrDec(g *gen) {
 		})
 	}
 }
+
+// ---------- translog stream: Exp, Ln, Log10, Pow (C12) ----------
+
+func (rn *runner) streamTransLog(g *gen) {
+	one := big.NewInt(1)
+	for i := 0; i < rn.n; i++ {
+		c := g.rootCtx()
+		if c.Precision > 34 {
+			c.Precision = uint32(1 + g.r.Intn(34))
+		}
+		p := int(c.Precision)
+		nd := g.digits(p) // often more digits than the precision
+		if nd > 60 {
+			nd = 60
+		}
+		var x, y *apd.Decimal
+		op := []string{"exp", "ln", "log10", "pow"}[g.r.Intn(4)]
+		switch op {
+		case "exp":
+			co := g.coeff(nd)
+			var exp int64
+			switch g.r.Intn(8) {
+			case 0: // tiny argument
+				exp = -int64(nd) - int64(g.r.Intn(2*p+5))
+			case 1: // near the overflow / underflow thresholds of the context
+				exp = -int64(nd) + int64(len(fmt.Sprint(int64(float64(c.MaxExponent)*2.302585))))
+			case 2:
+				exp = -int64(nd) + int64(g.r.Intn(5))
+			default:
+				exp = -int64(nd) + int64(g.r.Intn(3))
+			}
+			x = decFromBig(co, exp, g.r.Intn(3) == 0)
+		case "ln", "log10":
+			switch g.r.Intn(6) {
+			case 0, 1: // near 1: 1 +- 10^-k
+				k := 1 + g.r.Intn(2*p+3)
+				co := new(big.Int).Add(pow10(k), big.NewInt(int64(g.r.Intn(9)-4)))
+				if g.r.Intn(2) == 0 {
+					co = new(big.Int).Sub(pow10(k), big.NewInt(int64(1+g.r.Intn(5))))
+				}
+				x = decFromBig(co, -int64(k), false)
+			case 2: // exact powers of ten and neighbours
+				k := g.r.Intn(40) - 20
+				x = decFromBig(one, int64(k), false)
+				if g.r.Intn(2) == 0 {
+					x = decFromBig(new(big.Int).Add(pow10(p+2), one), int64(k-p-2), false)
+				}
+			default:
+				x = decFromBig(g.coeff(nd), int64(g.r.Intn(61)-30-nd), false)
+			}
+			if x.Coeff.Sign() == 0 {
+				x = decFromBig(big.NewInt(7), 0, false)
+			}
+		case "pow":
+			x = decFromBig(g.coeff(1+g.r.Intn(p+3)), int64(g.r.Intn(7)-3-g.r.Intn(p+1)), g.r.Intn(4) == 0)
+			switch g.r.Intn(6) {
+			case 0: // small non-negative integers: exact powers
+				y = decFromBig(big.NewInt(int64(g.r.Intn(12))), 0, false)
+			case 1: // integers with trailing zeros / larger
+				y = decFromBig(big.NewInt(int64(g.r.Intn(60))), int64(g.r.Intn(2)), g.r.Intn(3) == 0)
+			case 2: // half integers
+				y = decFromBig(big.NewInt(int64(2*g.r.Intn(20)+1)*5), -1, g.r.Intn(3) == 0)
+			case 3:
+				y = decFromBig(big.NewInt(1), 0, false)
+			default:
+				y = decFromBig(g.coeff(1+g.r.Intn(p+2)), -int64(g.r.Intn(p+3)), g.r.Intn(3) == 0)
+			}
+			if x.Coeff.Sign() == 0 {
+				x = decFromBig(big.NewInt(3), 0, false)
+			}
+		}
+		rn.ctxCase(op, c, x, y, 0)
+	}
+}
